@@ -214,6 +214,9 @@ def pipeline_rules(chk, P, pre):
 
 
 
+OVERLAYS = ('K2b',)
+
+
 def run(chk):
     P = mir.Program("K1")
     chk.use_program(P)
